@@ -14,6 +14,7 @@ TYPE_EXT = {
     'Heap': {'decl': _opaque('Heap', 'crate::vm::heap::Heap')},
     'Stack': {'decl': _opaque('Stack', 'crate::vm::stack::Stack')},
     'GlobalEnvironment': {'decl': _opaque('GlobalEnvironment', 'crate::vm::environment::GlobalEnvironment')},
+    'GcMap': {'decl': _opaque('GcMap', 'crate::vm::gc::Map')},
     'StackTrace': {'decl': _opaque('StackTrace', 'crate::vm::trace::StackTrace')},
     'Cell': {'decl': _opaque('Cell', 'crate::cell::Cell')},
     'Error': {'decl': '#[verifier::external_type_specification] pub struct ExError(crate::error::Error);', 'needs': ['Cell', 'ParseError', 'LexError']},
@@ -58,10 +59,11 @@ GROUPS = {
     'num': ['number'],
     'run': ['vm_struct', 'run'],
     'gc': ['gc'],
-    'heap': ['gc', 'vcell', 'heap'],
+    'heap': ['gc', 'vcell', 'stack', 'heap'],
     'stack': ['vcell', 'stack'],
     'globenv': ['vcell', 'globenv'],
     'vector': ['vector'],
+    'gcroots': ['vcell', 'stack', 'globenv', 'heap_model', 'vm_struct', 'run_gc'],
     'cont': ['vcell', 'stack', 'vm_struct', 'continuation', 'builtin_mod', 'builtin_procedure'],
     'builtins': ['vcell', 'stack', 'vm_struct', 'builtin_mod', 'builtin_vector', 'builtin_list'],
     'compile': ['vm_struct', 'vm_prepare', 'lambda', 'compile', 'builtin_procedure_eval'],
@@ -79,7 +81,7 @@ PROPS = {
                 'results built inside closures passed to Option::map (float arms of quotient / %) are opaque to Verus',
                 'the variadic procedures +, * and - are verified ((- x y ...) is x minus the sum of all the others; a non-number FIRST argument of - is silently skipped by the code -- (- (quote a) 1) answers 1 -- which no claimed property speaks about): for + and * an exact answer is exactly the sum / product of ALL arguments, each of which then was exact (args_sum / args_prod, step lemmas); abs / floor / ceiling / truncate / numerator / denominator hand their argument to the Number operation of the same name and return its answer; min / max / the comparison procedures are not under contract (provided trait methods `<`, `>` cannot be specified in this Verus; num_comp takes a closure)', 'divide / quotient / remainder also carry value postconditions over their two (or one) arguments in the right order; the procedures divide / quotient / remainder / expt (vm/builtin/number.rs) are verified to establish the preconditions of the Number operations they call (non-zero divisor, integer operands); pop_number / pop_integer are verified; expt also carries a value postcondition (x^e for the integer e that was passed); Number::numerator / denominator are verified for exact arguments (a stored rational is in lowest terms); Number::is_zero / to_u32 carry assumed contracts (is_zero is checked by Kani harnesses under C09); the modulo procedure is under contract for a first argument that is not a float (Number::modulo needs that: closure results in the float arms are opaque)',
             ]},
-    'C03': {'groups': ['heap', 'stack'], 'search': 'search_heap',
+    'C03': {'groups': ['heap', 'gcroots'], 'search': 'search_heap',
             'kani': [
                 {'harness': 'gc_state_from_u8', 'file': 'src/vm/gc.rs', 'kind': 'complete', 'what': 'State::from(u8) is the inverse of State::bits on 0..=2 (all bytes)'},
                 {'harness': 'gc_map_get', 'file': 'src/vm/gc.rs', 'kind': 'complete', 'what': 'Map::get returns the 2-bit field of the addressed cell for every byte content and index (map of 3 bytes), None past capacity: discharges the contract Verus assumes for Map::get'},
@@ -88,13 +90,13 @@ PROPS = {
             'assumptions': [
                 'scope: the collector mechanisms of heap.rs / gc.rs (Map, alloc, free, put, sweep, mark, mark_vcell); root enumeration in Vm::run_gc and the claim that run_one never dereferences a free cell are NOT decided',
                 'termination of mark / mark_vcell is not proved (exec_allows_no_decreases_clause)',
-                'mark_continuation, Heap::grow, Map::get/new/resize: contracts assumed on the Verus side (Kani harnesses listed cover Map::get completely, new/resize bounded)',
+                'Heap::grow, Map::get/new/resize: contracts assumed on the Verus side (Kani harnesses listed cover Map::get completely, new/resize bounded); mark_continuation is verified: it walks the saved stack through the opaque iterator of Stack::iter (contract proved in unit stack, same group), then marks the saved ip and ep; Continuation itself is opaque (private fields, derive over a tuple): its getters stack / ip / ep carry assumed one-line contracts and cont_kid is defined over them',
                 'payload views vector_view/env_view and the child relations cont_kid/lambda_kid/vkid are uninterpreted; axiom_vkids defines vkid by cases (trusted)',
-                'interior-mutable payloads (Vector, LexicalEnvironment) are treated as values: nothing mutates them during a collection', 'root enumeration: run_gc itself is not ingestible (for_each closures over opaque iterators), but the two stack iterators it and mark_continuation consume are under contract (group stack): Stack::iter_to_sp yields exactly the live slots 0..=sp, Stack::iter every slot (stated over the prophetic `remaining()` sequence of the returned opaque iterator); that run_gc / mark_continuation visit every element the iterator yields, and the other roots (globals, acc, ip, ep), are not decided',
+                'interior-mutable payloads (Vector, LexicalEnvironment) are treated as values: nothing mutates them during a collection', 'root enumeration (group gcroots): Vm::run_gc is verified to have marked, at the point where it calls sweep, the symbol of every global binding, the object of every global slot, whatever the live stack slots 0..=sp refer to, the accumulator, the code object of %ip and %ep, with the marked set closed under children (mark_ok since entry), and to leave stack, registers, accumulator and globals alone.  Its three `.for_each(|it| ..)` statements (closures capturing &mut self.heap, which Verus refuses) are desugared mechanically into the for loops they are defined to be, `.filter_map(|it| F).for_each(..)` into `for it in .. { if let Some(it) = F { .. } }` (pre-rewrite for_each_loops); the two f64 utilisation comparisons become an unspecified boolean of their operands (pre-rewrite f64_gates: Verus has no usize -> f64 cast), so run_gc is verified for both outcomes of each gate.  Stack::iter_to_sp and GlobalEnvironment::iter_bindings / iter_slots are verified in the same group (exactly the live slots; every bound symbol; every slot).  Heap is OPAQUE in this group: Heap::mark / mark_vcell are declared with the very clause texts unit heap proves on the real bodies (specs/heap_model.py imports specs/heap_mark.py), over uninterpreted views.  Assumed: Heap::sweep is callable at that point -- unit heap verifies sweep under the full representation invariant Heap::wf, which marking preserves only if no FREE cell gets marked, i.e. if no free cell is reachable (the mutator-side half of C03: a whole-history invariant that no contract here decides); and that the cells reachable from the roots are the ones the child relations ckid / vkid name (axiom_vkids)',
                 'no Symbol cell is written except through put/maybe_put (get_at_index_mut is outside the contract)',
                 'String keys obey vstd\'s hash-map key model (axiom_string_key); Rc::deref / as_ref / From<&String> specs assumed',
             ]},
-    'C12': {'groups': ['heap'], 'search': 'search_heap',
+    'C12': {'groups': ['heap', 'gcroots'], 'search': 'search_heap',
             'kani': [
                 {'harness': 'gc_map_get', 'file': 'src/vm/gc.rs', 'kind': 'complete', 'what': 'Map::get returns the 2-bit field of the addressed cell for every byte content and index; None past capacity'},
                 {'harness': 'gc_map_new_resize', 'file': 'src/vm/gc.rs', 'kind': 'bounded', 'bound': 'maps of at most 16 cells', 'what': 'Map::new / Map::resize: capacity follows the new size, new cells free, old cells kept (the sweep loop bound relies on it)'},
